@@ -499,6 +499,11 @@ fn make_items<S: Scenario>(s: &S, bound: usize, known: &Known) -> Vec<Item> {
         let w = s.world(&ctx);
         let root = w.snap();
         let acts = s.actions(&ctx, &m0);
+        if acts.is_empty() {
+            // nothing to do from the root, but its probes must still run
+            items.push(Item { cfg, prefix: vec![] });
+            continue;
+        }
         if bound == 1 {
             // chunk the root actions so that every item has a fair amount of work
             for i in 0..acts.len() {
